@@ -8,7 +8,10 @@ data.  Scenarios over generated, fully defined functions:
    chain                     racing call_next chains
    dependent                 racing first calls that generate a value-dependent dispatcher
    method                    racing first calls through an OvldBase instance attribute
+   miss-shape                racing cache misses of different call shapes (one / two positionals, optional parameters)
 Schedules: ALL single-pre-emption schedules of a scenario (exhaustive for that scenario; strided in the quick tier),
+two-pre-emption schedules (first thread pre-empted at one of its first 16 / 80 yield points x the second one anywhere)
+on the racing first calls,
 Hypothesis-drawn schedules with <=3 pre-emptions for two threads and sampled ones for three; plus (thorough only)
 free-running OS threads behind a barrier with a tiny switch interval (auxiliary, best-effort reproducible).
 Oracle: every thread's outcome (kind, winner, trace of bodies) equals the same call made alone on a fresh function;
@@ -28,7 +31,9 @@ from vlib.prog import Program
 
 HIER = {"classes": [{"bases": []}, {"bases": [0]}, {"bases": []}, {"bases": [1, 2]}]}
 KN = ["K0", "K1", "K2", "K3"]
-SCENARIOS = ["first-same", "first-diff", "miss-same", "miss-diff", "chain", "chain-cross", "dependent", "method"]
+SCENARIOS = ["first-same", "first-diff", "miss-same", "miss-diff", "miss-shape", "chain", "chain-cross", "dependent",
+             "method"]
+PAIR_SCENARIOS = ["first-same", "first-diff"]  # two pre-emptions: (early in one thread) x (anywhere in the other)
 
 
 def M(i, anns, prio=0, sites=()):
@@ -73,6 +78,18 @@ def scenario(name, variant=0):
                     probes=[iv(5), iv(0), iv(1), iv(-3), {"args": [["str", "s"]], "kw": {}, "script": []}])
     if name == "method":
         return dict(methods=base, host="mc", warm=[], racers=[k("K1"), k("K3")], probes=probes)
+    if name == "miss-shape":
+        # racing cache misses of DIFFERENT call shapes (one vs two positionals) over methods whose declared types
+        # cross at the optional position: f(K1, obj=..), f(obj, K1=..), f(K1, K1)
+        def P(name, ann, opt=False):
+            return {"name": name, "ann": ann, "opt": opt}
+        ms = [{"id": 0, "prio": 0, "kw": [], "sites": [], "pos": [P("a0", ["cls", "K1"]), P("a1", ["obj"], True)]},
+              {"id": 1, "prio": 0, "kw": [], "sites": [], "pos": [P("a0", ["obj"]), P("a1", ["cls", "K1"], True)]},
+              {"id": 2, "prio": 0, "kw": [], "sites": [], "pos": [P("a0", ["cls", "K1"]), P("a1", ["cls", "K1"])]}]
+        one = k("K1")
+        two = {"args": [["inst", "K1"], ["inst", "K1"]], "kw": {}, "script": []}
+        return dict(methods=ms, host="func", warm=[k("K0")], racers=[one, two] if not variant else [two, one],
+                    probes=[one, two, k("K0"), {"args": [["inst", "K0"], ["inst", "K1"]], "kw": {}, "script": []}])
     raise ValueError(name)
 
 
@@ -141,9 +158,13 @@ def run_schedule(sc, env, racers, schedule):
 
     for i, c in enumerate(racers):
         s.add(mk(i, c))
+    # a lock the library creates lazily, during the racing calls themselves, is a cooperative one as well
+    old = threading.Lock, threading.RLock
+    threading.Lock = threading.RLock = SC.CoopLock
     try:
         raw = s.run()
     finally:
+        threading.Lock, threading.RLock = old
         SC.CURRENT[0] = None
     return prog, s, raw, results
 
@@ -292,8 +313,9 @@ class Check:
     id = "C19"
     level = "exploration"
     rule = (
-        "Harness-owned schedules (cooperative scheduler, every executed library line is a yield point) over 7 racing "
-        "scenarios: quick = every 5th single-pre-emption point of each scenario in both thread orders plus 400 "
+        "Harness-owned schedules (cooperative scheduler, every executed library line is a yield point) over 9 racing "
+        "scenarios: quick = every 5th single-pre-emption point of each scenario in both thread orders, two-pre-emption "
+        "schedules (first 16 points of one thread x every 25th of the other) on the racing first calls, plus 400 "
         "Hypothesis-drawn schedules with 1-3 pre-emptions (2 or 3 threads); thorough = ALL single-pre-emption points, "
         "20 000 sampled multi-pre-emption schedules and OS-thread stress rounds. Each thread's (kind, winner, trace) must "
         "equal the same call alone on a fresh function and a probe set afterwards must equal the fresh function's. "
@@ -312,6 +334,14 @@ class Check:
         for name in SCENARIOS:
             for swap in (False, True):
                 t.append({"kind": "single", "scenario": name, "swap": swap, "stride": stride, "offset": seed % stride})
+        # two pre-emptions on the racing first calls: the first thread is pre-empted at one of its first `head` yield
+        # points, the second one anywhere (strided); then the first runs to its end, then the second
+        head, stride2 = (16, 25) if tier == "quick" else (80, 2)
+        for name in PAIR_SCENARIOS:
+            for swap in (False, True):
+                for k1 in range(1, head + 1):
+                    t.append({"kind": "pair", "scenario": name, "swap": swap, "k1": k1, "stride": stride2,
+                              "offset": (seed + k1) % stride2})
         n = 25 if tier == "quick" else 1250
         t += [{"kind": "rand", "seed": seed * 1000 + i, "n": n} for i in range(16)]
         if tier == "thorough":
@@ -330,6 +360,14 @@ class Check:
                      for k in range(1 + task["offset"], n0 + 1, task["stride"])]
             R.run_enumerated(st, specs, dispatch_case, sigs)
             st.extra["single_preemption_points_of_scenarios"] = n0
+        elif task["kind"] == "pair":
+            env = H.build(HIER)
+            sc = scenario(task["scenario"], 0)
+            racers = sc["racers"][::-1] if task["swap"] else sc["racers"]
+            n1, total = count_steps(sc, env, racers[::-1])  # yield points of the OTHER thread when it runs alone
+            specs = [{"scenario": task["scenario"], "variant": 0, "swap": task["swap"], "threads": 2,
+                      "schedule": [task["k1"], k2]} for k2 in range(1 + task["offset"], n1 + 1, task["stride"])]
+            R.run_enumerated(st, specs, dispatch_case, sigs)
         elif task["kind"] == "stress":
             R.run_enumerated(st, [{"kind": "stress", "scenario": task["scenario"], "rounds": task["rounds"]}], dispatch_case, sigs)
         else:
